@@ -141,4 +141,76 @@ Section Batch.
     eapply pbind_rel; [apply rel_m_step_intrinsic_maximums; eassumption|]. intros [t6 b6] [t6' b6'] [Ht6 Hb6]. cbn [fst snd] in Ht6, Hb6.
     apply rel_m_step_max_content_maximums; assumption.
   Qed.
+
+  (* ---- step 2: one item of a span-1 batch *)
+  Lemma rel_max_with (b b' : XQ) (p p' : Prog (XQ * @GItem XQ)) :
+    L b b' -> ProgRel k VI p p' ->
+    ProgRel k VI (do '(v, g1) <- p ;; PRet (fmax b v, g1)) (do '(v, g1) <- p' ;; PRet (fmax b' v, g1)).
+  Proof.
+    intros Hb Hp. eapply pbind_rel; [exact Hp|]. intros [v g1] [v' g1'] [Hv Hg1]. cbn [fst snd] in Hv, Hg1.
+    constructor. split; cbn [fst snd]; [apply (sc_max k); assumption|exact Hg1].
+  Qed.
+
+  Lemma rel_m_span1_item ax inner inner' avail avail' fp ot ot' oadj oadj' ts ts' g g' :
+    sz_rel O inner inner' -> gavail_rel k avail avail' -> tracks_rel k ot ot' -> L oadj oadj' -> tracks_rel k ts ts' -> gitem_rel k g g' ->
+    ProgRel k VT (m_span1_item ax inner avail fp ot oadj ts g) (m_span1_item ax inner' avail' fp ot' oadj' ts' g').
+  Proof.
+    intros Hin Hav Hot Hadj Hts Hg. unfold m_span1_item. pose proof (rel_get_ax O _ _ ax Hin) as Hi.
+    assert (Ex : g_ix g' = g_ix g) by (gi_open Hg; assumption). rewrite Ex. cbv zeta.
+    set (idx := S (fst (get_ax (g_ix g) ax))).
+    pose proof (rel_nth_error (track_rel k) idx ts ts' Hts) as Hn.
+    destruct (nth_error ts idx) as [t|], (nth_error ts' idx) as [t'|]; cbn [op_rel] in Hn; try contradiction;
+      [|constructor; split; assumption].
+    assert (Hmin : sfn_rel k (minf t) (minf t')) by (track_open Hn; assumption).
+    assert (Hmaxt : sfn_rel k (maxf t) (maxf t')) by (track_open Hn; assumption).
+    assert (Hbase : L (base_size t) (base_size t')) by (track_open Hn; assumption).
+    assert (Hmc : forall h h', gitem_rel k h h' -> ProgRel k VI (m_min_content ax inner fp ot oadj h) (m_min_content ax inner' fp ot' oadj' h'))
+      by (intros; apply (rel_m_min_content k Hk); assumption).
+    assert (Hxc : forall h h', gitem_rel k h h' -> ProgRel k VI (m_max_content ax inner fp ot oadj h) (m_max_content ax inner' fp ot' oadj' h'))
+      by (intros; apply (rel_m_max_content k Hk); assumption).
+    eapply pbind_rel with (RA := VI).
+    - rewrite (rel_is_none k _ _ Hi).
+      destruct (minf t), (minf t'); cbn [sfn_rel] in Hmin; try contradiction;
+        try (constructor; split; assumption); try (apply rel_max_with; [exact Hbase|auto]).
+      + destruct (is_none (get_ax inner ax)); [apply rel_max_with; [exact Hbase|auto]|constructor; split; assumption].
+      + (* SAuto: rel_max_with applied, the minimum space is left *)
+        apply (rel_m_intrinsic_minimum_space k Hk); try eassumption.
+        intros h h' Hh. apply (rel_definite_limit k Hk); assumption.
+    - intros [nb g1] [nb' g1'] [Hnb Hg1]. cbn [fst snd] in Hnb, Hg1. cbv beta iota.
+      pose proof (rel_set_base k _ _ _ _ Hn Hnb) as Ht1.
+      set (t1 := set_base t nb) in *. set (t1' := set_base t' nb') in *. clearbody t1 t1'.
+      assert (Hmx1 : sfn_rel k (maxf t1) (maxf t1')) by (track_open Ht1; assumption).
+      assert (Hlp1 : L (limit_planned t1) (limit_planned t1')) by (track_open Ht1; assumption).
+      eapply pbind_rel with (RA := pair_rel (track_rel k) (gitem_rel k)).
+      + rewrite (rel_is_fit_content k _ _ Hmx1), (rel_is_max_content_alike k _ _ Hmx1), (rel_uses_percentage k _ _ Hmx1),
+                (rel_is_intrinsic k _ _ Hmx1), (rel_is_none k _ _ Hi).
+        destruct (is_fit_content (maxf t1)).
+        * eapply pbind_rel with (RA := VI).
+          -- rewrite (rel_g_scroll k ax _ _ Hg1).
+             destruct (negb (g_scroll ax g1)); [apply rel_max_with; [exact Hlp1|auto]|constructor; split; assumption].
+          -- intros [p1 g2] [p1' g2'] [Hp1 Hg2]. cbn [fst snd] in Hp1, Hg2.
+             eapply pbind_rel; [apply Hxc; exact Hg2|]. intros [mx g3] [mx' g3'] [Hmx Hg3]. cbn [fst snd] in Hmx, Hg3.
+             constructor. split; cbn [fst snd]; [|exact Hg3].
+             apply rel_set_limit_planned; [exact Ht1|]. apply (sc_max k); [exact Hk|exact Hp1|].
+             apply (sc_min k); [exact Hk|exact Hmx|]. apply (rel_fit_content_limit k Hk); assumption.
+        * destruct (is_max_content_alike (maxf t1) || uses_percentage (maxf t1) && is_none (get_ax inner ax)).
+          -- eapply pbind_rel; [apply Hxc; exact Hg1|]. intros [mx g2] [mx' g2'] [Hmx Hg2]. cbn [fst snd] in Hmx, Hg2.
+             constructor. split; cbn [fst snd]; [|exact Hg2].
+             apply rel_set_limit_planned; [exact Ht1|]. apply (sc_max k); assumption.
+          -- destruct (is_intrinsic (maxf t1)); [|constructor; split; assumption].
+             eapply pbind_rel; [apply Hmc; exact Hg1|]. intros [mn g2] [mn' g2'] [Hmn Hg2]. cbn [fst snd] in Hmn, Hg2.
+             constructor. split; cbn [fst snd]; [|exact Hg2].
+             apply rel_set_limit_planned; [exact Ht1|]. apply (sc_max k); assumption.
+      + intros [t2 g2] [t2' g2'] [Ht2 Hg2]. cbn [fst snd] in Ht2, Hg2. constructor. split; cbn [fst snd]; [|exact Hg2].
+        apply rel_update_nth; [intros; exact Ht2|exact Hts].
+  Qed.
+
+  Lemma rel_m_span1_batch ax inner inner' avail avail' fp ot ot' oadj oadj' b b' ts ts' :
+    sz_rel O inner inner' -> gavail_rel k avail avail' -> tracks_rel k ot ot' -> L oadj oadj' -> Forall2 (gitem_rel k) b b' -> tracks_rel k ts ts' ->
+    ProgRel k VB (m_span1_batch ax inner avail fp ot oadj b ts) (m_span1_batch ax inner' avail' fp ot' oadj' b' ts').
+  Proof.
+    intros Hin Hav Hot Hadj Hb Hts. unfold m_span1_batch.
+    apply rel_step_shape; [|intros; apply (rel_span1_finish k Hk); assumption|exact Hb|exact Hts].
+    intros s s' g g' Hs Hg. apply rel_m_span1_item; assumption.
+  Qed.
 End Batch.
